@@ -21,7 +21,7 @@ import random
 import numpy as np
 
 from glue.core.hub import HubListener
-from glue.core.message import NumericalDataChangedMessage
+from glue.core.message import Message, NumericalDataChangedMessage
 from glue.core.subset import SliceSubsetState
 
 from vf.common import describe_view, make_view
@@ -212,16 +212,31 @@ def gen_read(rng, H, s, di, registered):
 
 # ---------------------------------------------------------------- a state history
 class Probe(HubListener):
-    """Repeats reads while the NumericalDataChangedMessage is being broadcast."""
+    """Re-entrant listener.  While the NumericalDataChangedMessage is being broadcast it repeats reads and compares them
+    with the twin (`todo`).  On every other message the hub delivers while a mutation is in progress
+    (DataRemoveComponentMessage, DataAddComponentMessage, ComponentsChangedMessage, DataUpdateMessage, ... - they come
+    from *inside* update_values_from_data, when the dataset is half refreshed) it evaluates the memoized selections
+    (`mid`): nothing can be asserted about those results, but the memo entries they create must not survive the call."""
 
     def __init__(self, hub):
         self.todo = None
+        self.mid = None
+        self.busy = False
         hub.subscribe(self, NumericalDataChangedMessage, handler=self.on_change)
+        hub.subscribe(self, Message, handler=self.on_any)
 
     def on_change(self, msg):
         if self.todo is not None:
             fn, self.todo = self.todo, None
             fn()
+
+    def on_any(self, msg):
+        if self.mid is not None and not self.busy:
+            self.busy = True
+            try:
+                self.mid(type(msg).__name__)
+            finally:
+                self.busy = False
 
 
 class History:
@@ -508,7 +523,7 @@ def choose_mutation(rng, H):
         di = rng.randrange(len(H.models))
         m = H.models[di]
         uv_ok = m.coords is None and not m.derived
-        if uv_ok and rng.random() < 0.3:
+        if uv_ok and rng.random() < 0.4:
             flood = any(state_has(d, "flood") for d in (H.snap if hasattr(H, "snap") else H.descs))
             new_shape = (not flood) and rng.random() < 0.5
             if new_shape:
@@ -580,6 +595,37 @@ def choose_mutation(rng, H):
     spec["s"] = k
     spec["kind"] = spec["op"]
     return spec
+
+
+def used_names(H, di):
+    """Component labels of dataset di that a state, a read, a link, a join or the derived component refers to."""
+    used = set()
+
+    def visit(x):
+        if isinstance(x, (list, tuple)):
+            if len(x) == 3 and x[0] == "c" and x[1] == di and isinstance(x[2], str):
+                used.add(x[2])
+            for y in x:
+                visit(y)
+        elif isinstance(x, dict):
+            for y in x.values():
+                visit(y)
+
+    visit(getattr(H, "snap", H.descs))
+    for r in H.reads:
+        visit(r.get("cid"))
+    for spec in H.links_pool:
+        for (dd, key) in spec[:2]:
+            if dd == di and isinstance(key, str):
+                used.add(key)
+    for (da, na, db, nb) in H.joins:
+        used.update([na] if da == di else [], [nb] if db == di else [])
+    m = H.models[di]
+    if m.derived:
+        used.update(x for x in W.derived_spec(m) if isinstance(x, str))
+    if m.restrict:
+        used.update(x for x in m.restrict if isinstance(x, str))
+    return used
 
 
 def nudge_target(rng, H, di):
@@ -695,6 +741,14 @@ def perform(H, mut):
             call = lambda: d.add_component_link(d.id[a] * k + d.id[b], d.id["der"])
         else:
             names = [c[0] for c in m.comps]
+            droppable = [n for n in names if n not in used_names(H, di) and m.kind(n) != "cat"]
+            if droppable and not mut.get("keep_all") and rng.random() < 0.6:
+                # the refreshed dataset lacks a column: DataRemoveComponentMessage / ComponentsChangedMessage are
+                # delivered from inside the refresh, while the remaining columns still hold the old values
+                gone = rng.choice(droppable)
+                names = [n for n in names if n != gone]
+                mut["dropped"] = gone
+                ctx.count("class:update_values_from_data_drops_a_component")
             src = W.gen_data_model(rng, "d%d_r%d" % (di, len(H.mutlog)), tuple(mut["shape"]),
                                    [n for n in names if n in W.COMP_KINDS], dtypes=H.dtypes)
             src.restrict = m.restrict
@@ -742,14 +796,29 @@ def perform(H, mut):
                     inner_call()
                 verify(H, some, twin, mut, True)
             H.probe.todo = todo
+        if H.probe is not None and rng.random() < 0.7:
+            inside = [r for r in H.reads if r["k"] in ("mask", "index_list") and not r.get("dead")]
+
+            def mid(msgname):
+                if msgname == "NumericalDataChangedMessage":
+                    return
+                ctx.count("listener_calls_inside_mutation:%s:%s" % (mut["kind"], msgname))
+                for r in inside:
+                    o = exec_read(live, r)
+                    ctx.count("masks_read_inside_mutation:" + mut["kind"])
+                    if o[0] == "exc":
+                        ctx.count("raised_inside_mutation:" + o[1])
+            H.probe.mid = mid
         try:
             call()
         except Exception as e:
+            if H.probe is not None:
+                H.probe.todo = H.probe.mid = None
             ctx.violation({"kind": "mutation_raised", "mutation": mut["kind"], "exception": type(e).__name__},
                           {"history": describe_history(H), "error": repr(e)[:300]})
             return False
         if H.probe is not None:
-            H.probe.todo = None
+            H.probe.todo = H.probe.mid = None
         verify(H, H.reads, twin, mut, False)
         H.last_mut = mut if op == "update_components" and not variant else None
         if variant == "near_equal_values" and not mut.get("second_half"):
@@ -1477,7 +1546,7 @@ def run_pressure_history(ctx, hid):
             new_shape = rng.random() < 0.5 and mode not in ("element",)
             shp = (max(3, m.shape[0] + rng.choice([-1, 1, 2])),) if new_shape else m.shape
             mut = {"op": "update_values_from_data", "kind": "update_values_from_data", "d": 0, "shape": list(shp),
-                   "new_shape": new_shape, "extra": False}
+                   "new_shape": new_shape, "extra": False, "keep_all": True}
         else:
             mut = {"op": "update_components", "kind": "update_components", "d": 0,
                    "names": rng.sample(["v", "w"], rng.randint(1, 2)), "key": rng.choice(["cid", "component"])}
@@ -1561,6 +1630,10 @@ def floors(c, tier):
     for k, n in classes.items():
         if c.get(k, 0) < n:
             out.append("class counter %s is %d (floor %d)" % (k, c.get(k, 0), n))
+    if c.get("listener_calls_inside_mutation:update_values_from_data:DataRemoveComponentMessage", 0) < 3:
+        out.append("fewer than 3 listener calls on a DataRemoveComponentMessage delivered from inside update_values_from_data")
+    if c.get("masks_read_inside_mutation:update_values_from_data", 0) < 100:
+        out.append("fewer than 100 masks evaluated by the listener from inside update_values_from_data")
     if sum(v for k, v in c.items() if k.startswith("fault_reads:")) < 20:
         out.append("fewer than 20 deliberately failing reads were interleaved")
     bad = sum(v for k, v in c.items() if k.startswith("twin_build_failed"))
